@@ -43,6 +43,7 @@ import (
 	"bufio"
 	"bytes"
 	"io"
+	"math"
 	"unicode"
 	"unicode/utf8"
 )
@@ -178,6 +179,9 @@ func NewDecoder(r io.Reader) *Decoder {
 	d := &Decoder{
 		s: bufio.NewScanner(r),
 	}
+	// A token may be as long as a line, so do not let the scanner's default token
+	// size limit end decoding with bufio.ErrTooLong on a long line.
+	d.s.Buffer(nil, math.MaxInt)
 	d.s.Split(d.scan)
 	return d
 }
